@@ -73,6 +73,10 @@ class Cache:
         if cached.attributes.index() != route.attributes.index():
             return False
 
+        # the route index leaves out what does not identify a route (the label stack): a new label is still a change
+        if getattr(cached.nlri, '_packed', None) != getattr(route.nlri, '_packed', None):
+            return False
+
         # Use route.nexthop (nexthop is stored in Route, not NLRI)
         # Use getattr for safety since some NLRIs may not have nexthop
         try:
